@@ -22,6 +22,7 @@ type Obligation struct {
 	Pos     token.Position
 	Props   []string
 	Callee  string // for call-site requires obligations: contract name and clause
+	Ctx     []string // functions of the module with an error result whose call precedes the obligation on every path (validators that ran before)
 	Clause  string
 	bodyPos int // number of body lines that precede it
 	// filled by the driver
@@ -118,10 +119,12 @@ type FuncEnc struct {
 	noPreserveOuter  map[*ssa.Alloc]bool
 	invAsGoal        bool // loop invariant formulas are being built as proof goals (not assumptions)
 	fvBind           map[*ssa.FreeVar]ssa.Value
+	TrackValidators  bool // record Obligation.Ctx (generator sweep)
 	unroll           map[*ssa.BasicBlock]*unrollInfo // loops over slice literals, unrolled
 	unrollSkip       map[*ssa.BasicBlock]bool        // their body and return blocks (encoded by encodeUnrolled)
 	unrollIter       map[*ssa.BasicBlock]int
 	constInt         map[ssa.Value]int64             // values that are literals in the current unrolled iteration
+	curInstr         ssa.Instruction // instruction of the root function being encoded (the call site while a callee is unfolded)
 	Imprecise        []string          // over-approximations that make obligations undecidable here (untraced function values, unmodelled instructions)
 	BodyErrs         []string          // "request body could not be read/decoded" conditions seen so far
 }
@@ -178,6 +181,9 @@ func (e *FuncEnc) oblige(class, detail, formula string, pos token.Pos) *Obligati
 		name = fmt.Sprintf("%s/%s#%d", e.Name, class, n)
 	}
 	o := &Obligation{Name: name, Func: e.Name, Class: class, Detail: detail, Guard: e.curReach, Formula: formula, bodyPos: len(e.body)}
+	if e.TrackValidators {
+		o.Ctx = e.validatorsBefore(e.curInstr)
+	}
 	if pos.IsValid() && e.Fn.Prog != nil {
 		o.Pos = e.Fn.Prog.Fset.Position(pos)
 	}
@@ -786,8 +792,45 @@ func (e *FuncEnc) encodeBlock(b *ssa.BasicBlock) {
 			e.assumeInvariants(li)
 			li = nil
 		}
+		if len(e.inlineStack) == 0 {
+			e.curInstr = in
+		}
 		e.encodeInstr(in)
 	}
+}
+
+// validatorsBefore: the module functions with an error result that are called
+// on every path before instruction `at` of the function being encoded (calls in
+// dominating blocks, and earlier calls of its own block).
+func (e *FuncEnc) validatorsBefore(at ssa.Instruction) []string {
+	if at == nil || at.Block() == nil || e.W == nil {
+		return nil
+	}
+	seen := map[string]bool{}
+	for _, b := range e.Fn.Blocks {
+		if !b.Dominates(at.Block()) {
+			continue
+		}
+		for _, in := range b.Instrs {
+			if b == at.Block() && in == at {
+				break
+			}
+			c, ok := in.(*ssa.Call)
+			if !ok {
+				continue
+			}
+			g := c.Call.StaticCallee()
+			if g == nil || !isModuleFn(e.W, g) {
+				continue
+			}
+			res := g.Signature.Results()
+			if res.Len() == 0 || !isErrorT(res.At(res.Len()-1).Type()) {
+				continue
+			}
+			seen[g.String()] = true
+		}
+	}
+	return sortedKeys(seen)
 }
 
 func (e *FuncEnc) mergeStates(b *ssa.BasicBlock, preds []*ssa.BasicBlock) *state {
